@@ -66,6 +66,25 @@ theorem filter_table_matches_source :
     modelArm true = GripGen.MongoFilter.andArm ∧ modelArm false = GripGen.MongoFilter.orArm := by
   decide
 
+/-- convertPath as the MODEL reads it (`Grip.C14.mpath` / `mpathL`), statement by statement in the
+    notation of the regenerated table: the namespace is taken from the ORIGINAL key (`nsOf`),
+    GetJSONPath with the `$.` prefix dropped (`Path.jsonPathOf`), `gid` → `_id` before the mark
+    prefix (`basePath`, so `$a._gid` ↦ `marks.a._id`), and a key outside the current namespace is
+    addressed below `marks.<namespace>.` (`mpathL`).  A pinned reading: any edit of convertPath
+    (the fix reverted, the path dropped, the rename moved after the prefix) breaks the theorem
+    below until the model is re-read against it. -/
+def modelPath : List String :=
+  ["namespace := jsonpath.GetNamespace(key)",
+   "key = jsonpath.GetJSONPath(key)",
+   "key = strings.TrimPrefix(key, \"$.\")",
+   "if key == \"gid\" { key = \"_id\" }",
+   "if namespace != jsonpath.Current { key = \"marks.\" + namespace + \".\" + key }",
+   "return key"]
+
+/-- convertPath is, statement for statement, what the MODEL's `mpath` was read from. -/
+theorem filter_path_matches_source : modelPath = GripGen.MongoFilter.path := by
+  decide
+
 /-- every condition of the enumeration other than the range operators (which convertHasExpression
     rewrites before convertCondition sees them) has a row -/
 theorem filter_table_complete :
